@@ -27,6 +27,8 @@ Oracle clauses (violation keys ``C16/<harness>/<clause>[/<site>]``):
               zero virtual time, loop iterations are free): neither a queued datagram waits for an unrelated event,
               nor does another client's slow handler delay this one
   server-up   serve() / serve_forever() is still running when the workload ends
+  stop-hangs  cancelling serve() / shutdown() completes (stops may coincide with the expiry of a handler's yielded
+              timeout and happen while a handler polls with expired timeouts); needed for the serve-again history
 """
 from __future__ import annotations
 
@@ -76,6 +78,7 @@ PORT = 5016
 G = 1.0 / 64
 GAPS = (0, 0, 1, 2, 8, 32, 0, 1)
 SLEEPS = (0.0, 2 * G, 8 * G, 32 * G)
+STOP_BOUND = 30.0
 TIMEOUTS = (None, 4 * G, 16 * G, 0.0, G / 16)  # 0.0 = poll ("only if a datagram is already queued")
 
 
@@ -125,8 +128,13 @@ def _gen(world: World, low: bool) -> dict:
             "t": world.pick("pause_t", [a["t"] for a in arrivals]) + world.choose("pause_off", 3),
             "gap": world.pick("pause_gap", (0, 1, 2, 8, 32)),
             "dgrams": [world.choose("pause_who", nclients) for _ in range(world.choose("pause_n", 4))],
+            # 0: stop at the scripted time; 1: move to the instant a waiting handler's yielded timeout expires;
+            # 2: stop issued by the world at the very moment a handler finishes a request and nothing is left in
+            #    flight (the handler may go on polling with expired timeouts while the stop travels to its task)
+            "aim": world.choose("pause_aim", 3),
         }
-    return {"calm": calm, "low": low, "clients": clients, "arrivals": arrivals, "pause": pause}
+    aim_final = 0 if calm else world.choose("aim_final", 3)  # same three modes for the stop at the end of the workload
+    return {"calm": calm, "low": low, "clients": clients, "arrivals": arrivals, "pause": pause, "aim_final": aim_final}
 
 
 # ------------------------------------------------------------------------------------------------ instrumentation
@@ -146,7 +154,7 @@ class Client:
         self.ngens = 0
         self.ntimeouts = 0
         self.sent = 0  # datagrams injected for this address
-        self.wait_deadline: float | None = None  # absolute deadline of the timeout the handler is currently waiting with
+        self.wait_deadline: float | None = None  # absolute deadline of the finite timeout the handler is waiting with
         self.reacted = 0
 
     def next_gen_len(self) -> int:
@@ -180,6 +188,9 @@ class Ctx:
         self.stopping = False
         self.pausing = False
         self.resuming = False
+        self.stop_armed: str | None = None  # "pause" / "final": the next handler that leaves the system quiescent requests the stop
+        self.stop_event: asyncio.Event | None = None
+        self.aborted_at: int | None = None  # len(world.trace) when a hanging stop was torn down
         self.pauses: list[tuple[int, float]] = []  # (len(net.dgram_log) when serving stopped, time serving resumed)
         self.violation: Violation | None = None
         self.scripted_left = len(sc["arrivals"])
@@ -298,6 +309,7 @@ class Ctx:
                     tgt = self.clients[(cl.k + react[0]) % len(self.clients)]
                     world.probe("reactive_arrival_same_client" if tgt is cl else "reactive_arrival_other_client")
                     self.arrive(tgt, False, react[1])
+                self.maybe_request_stop()
                 if caught is not None and cl.sc["err_mode"] == 1:
                     world.fault("handler_raises")
                     raise caught
@@ -357,28 +369,39 @@ class Ctx:
             out.append(prev)
         return out
 
-    def no_deadline_now(self) -> bool:
-        """no handler is waiting with a timeout that expires at this very instant (see stop_point)"""
-        return all(cl.wait_deadline is None or cl.wait_deadline > self.world.now for cl in self.clients)
+    def maybe_request_stop(self) -> None:
+        """called by a handler that has just finished a request: reactive stop (aim mode 2)"""
+        if self.stop_armed is None or self.stop_event is None:
+            return
+        if self.stop_armed == "final" and not self.all_handled():
+            return
+        if not self.quiescent():
+            return
+        self.world.probe("stop_requested_when_handler_finishes")
+        self.world.log("stopreq", self.stop_armed)
+        self.stop_armed = None
+        self.stop_event.set()
 
-    async def stop_point(self, step: float) -> None:
-        """Move to an instant at which serving can be stopped without the stop coinciding with the expiry of a handler's
-        yielded timeout: an odd multiple of `step` (all deadlines are multiples of 1/1024 s, resp. of the previous
-        step), and not while a handler spins on zero timeouts.  Reason: on the current tree an external cancellation
-        that reaches a task in the same loop iteration as the expiry of its `backend.timeout()` scope is swallowed by
-        the scope (TimeoutError is raised, task.cancelling() stays 1): a handler that then waits again is never
-        cancelled and the server's task group never finishes.  That is a cancel-scope matter (C13), reported to the
-        lead; C16 keeps out of it."""
-        w = self.world
-        target = ((w.now // (2 * step)) * 2 + 1) * step
-        if target <= w.now:
-            target += 2 * step
-        await asyncio.sleep(target - w.now)
-        for _ in range(200):
-            if self.no_deadline_now():
-                return
-            await asyncio.sleep(0)
-        raise HarnessError("handlers keep spinning on expired timeouts")
+    async def wait_stop_request(self, kind: str, max_wait: float) -> None:
+        self.stop_event = asyncio.Event()
+        self.stop_armed = kind
+        t_end = self.world.now + max_wait
+        while not self.stop_event.is_set() and self.world.now < t_end and self.violation is None:
+            try:  # wake up regularly: datagrams held back by the iteration hook need loop iterations
+                await asyncio.wait_for(self.stop_event.wait(), 0.25)
+            except TimeoutError:
+                pass
+        self.stop_armed = None
+
+    async def aim(self) -> None:
+        """if a handler is waiting with a finite yielded timeout, move to the very instant at which it expires, so that
+        the stop that follows coincides with the expiry (cancellation and timeout in the same loop iteration)"""
+        now = self.world.now
+        ds = [cl.wait_deadline for cl in self.clients if cl.wait_deadline is not None and cl.wait_deadline > now]
+        if ds:
+            self.world.probe("stop_aimed_at_timeout_expiry")
+            self.world.fault("coincide_timer")
+            await asyncio.sleep(min(ds) - now)
 
     def all_handled(self) -> bool:
         if self.scripted_left or self.staged:
@@ -402,12 +425,45 @@ def _run(world: World, low: bool) -> None:
     net = SimNet(world)
     backend = SimAsyncIOBackend(net)
     ctx = Ctx(world, net, sc, name)
-    world.notes.update(pause=sc["pause"], clients=[{k: v for k, v in c.items() if k != "react"} | {"react": {str(i): v for i, v in c["react"].items()}} for c in sc["clients"]], arrivals=sc["arrivals"], calm=sc["calm"])
+    world.notes.update(pause=sc["pause"], aim_final=sc["aim_final"], clients=[{k: v for k, v in c.items() if k != "react"} | {"react": {str(i): v for i, v in c["react"].items()}} for c in sc["clients"]], arrivals=sc["arrivals"], calm=sc["calm"])
     world.iteration_hooks.append(ctx.hook)
 
     def scripted(a: dict) -> None:
         ctx.scripted_left -= 1
         ctx.arrive(ctx.clients[a["k"]], a["bad"], a["hold"])
+
+    async def bounded_stop(stop, serve_task: asyncio.Task, where: str) -> bool:
+        """Stop serving (low level: cancel the serve() task; high level: shutdown()).  The stop may coincide with the
+        expiry of a handler's yielded timeout or happen while a handler spins on expired timeouts; it has to complete
+        without any virtual time passing.  If it has not completed after STOP_BOUND virtual seconds it hangs."""
+        if ctx.aborted_at is not None:
+            return False
+        t0 = world.now
+        if not sc["calm"]:
+            # which loop iteration (and which position inside it) the cancellation reaches the handlers' tasks in
+            for _ in range(world.choose("stop_delay", 6)):
+                await asyncio.sleep(0)
+        st = asyncio.create_task(stop(serve_task), name="c16-stop")
+        await asyncio.wait([st], timeout=STOP_BOUND)
+        if st.done():
+            st.result()
+            return True
+        waiting = [cl.label for cl in ctx.clients if cl.active]
+        ctx.flag(
+            "stop-hangs",
+            f"stopping the server {where} at t={t0} did not complete within {STOP_BOUND} virtual seconds; handler generators still alive: {waiting} "
+            f"(timeouts thrown so far: { {cl.label: cl.ntimeouts for cl in ctx.clients} }); serve task done={serve_task.done()}",
+        )
+        # tear everything down so that the run ends; nothing after this point belongs to the execution's identity
+        ctx.aborted_at = len(world.trace)
+        ctx.stopping = True
+        me = asyncio.current_task()
+        others = sorted((t for t in asyncio.all_tasks() if t is not me), key=lambda t: t.get_name())
+        for _ in range(3):
+            for t in others:
+                t.cancel()
+            await asyncio.wait(others, timeout=5.0)
+        return False
 
     async def drive(serve_task: asyncio.Task, start, stop) -> asyncio.Task:
         ctx.sock = net.bound[(HOST, PORT)]
@@ -423,9 +479,12 @@ def _run(world: World, low: bool) -> None:
             await asyncio.sleep(max(0.0, base + pause["t"] * G - world.now))
             ready = False
             while world.now < t_last + budget and not serve_task.done() and ctx.violation is None:
+                if pause["aim"] == 2 and not ctx.all_handled():
+                    await ctx.wait_stop_request("pause", 2.0)
                 if ctx.quiescent():
-                    await ctx.stop_point(1 / 2048)
-                    if ctx.quiescent() and ctx.no_deadline_now():
+                    if pause["aim"] == 1:
+                        await ctx.aim()
+                    if ctx.quiescent():
                         ready = True
                         break
                 await asyncio.sleep(G)
@@ -438,8 +497,11 @@ def _run(world: World, low: bool) -> None:
                 t_stop = world.now
                 world.log("pause", name, n_stop)
                 ctx.pausing = True
-                await stop(serve_task)
+                stopped = await bounded_stop(stop, serve_task, "between two serving periods")
                 ctx.pausing = False
+                if not stopped:
+                    ctx.stopping = True
+                    return serve_task
                 if len(net.dgram_log) != n_stop or world.now != t_stop:
                     raise HarnessError("a datagram arrived / time passed while serving was being stopped")
                 for k in pause["dgrams"]:
@@ -453,10 +515,14 @@ def _run(world: World, low: bool) -> None:
                 await settle(world, 4)
                 if serve_task.done():
                     ctx.flag("server-up", f"serving again on the same server object after the first serving period was stopped at t={t_stop}: the new serve()/serve_forever() ended at once ({'cancelled' if serve_task.cancelled() else repr(serve_task.exception())}); {len(net.dgram_log) - n_stop} datagrams had reached the socket in between", "serve-again")
-        while not ctx.all_handled() and world.now < t_last + budget and not serve_task.done() and ctx.violation is None:
-            await asyncio.sleep(0.25)
-        await settle(world, 8)
-        await ctx.stop_point(1 / 4096)
+        if sc["aim_final"] == 2 and not ctx.all_handled() and not serve_task.done() and ctx.violation is None:
+            await ctx.wait_stop_request("final", max(0.0, t_last + budget - world.now))
+        if not ctx.all_handled():
+            while not ctx.all_handled() and world.now < t_last + budget and not serve_task.done() and ctx.violation is None:
+                await asyncio.sleep(0.25)
+            await settle(world, 8)
+            if sc["aim_final"] == 1 and ctx.all_handled():
+                await ctx.aim()
         if serve_task.done():
             exc = serve_task.exception() if not serve_task.cancelled() else None
             ctx.flag("server-up", f"the server stopped by itself during the workload: {type(exc).__name__}: {exc}", type(exc).__name__)
@@ -487,7 +553,7 @@ def _run(world: World, low: bool) -> None:
 
         async with server:
             task = await drive(await start(), start, stop)
-            await stop(task)
+            await bounded_stop(stop, task, "at the end of the workload")
 
     async def amain_low() -> None:
         loop = asyncio.get_running_loop()
@@ -514,11 +580,13 @@ def _run(world: World, low: bool) -> None:
             await asyncio.gather(task, return_exceptions=True)
 
         task = await drive(await start(), start, stop)
-        await stop(task)
+        await bounded_stop(stop, task, "at the end of the workload")
         await server.aclose()
 
     with sim_sockets(net):
         run_async(world, amain_low if low else amain_high)
+    if ctx.aborted_at is not None:
+        del world.trace[ctx.aborted_at :]
     if ctx.violation is not None:
         raise ctx.violation
     _final_checks(ctx)
